@@ -69,10 +69,10 @@ Definition keys_read (k : ckind) : list label :=
   | KImpedance => ["R"; "X"] | KAdmittance => ["G"; "B"]
   | KDcV => ["V"; "R"; "w"] | KAcV => ["V"; "phi"; "R"; "w"]
   | KCplxV => ["V_real"; "V_imag"; "R"; "X"]
-  | KPerV => ["wavetype"; "w"; "V"; "phi"]
+  | KPerV => ["wavetype"; "w"; "V"; "phi"; "R"]
   | KDcI => ["I"; "G"; "w"] | KAcI => ["I"; "G"; "w"; "phi"]
   | KCplxI => ["I_real"; "I_imag"; "G"; "B"]
-  | KPerI => ["wavetype"; "w"; "I"; "phi"]
+  | KPerI => ["wavetype"; "w"; "I"; "phi"; "G"]
   | KLamp | KResLoad => ["P"; "V_ref"]
   | KShort | KGround => []
   end%string.
@@ -158,8 +158,8 @@ Fixpoint hlook (l : list (Z * (R * (R * R)))) (n : Z) : option (R * (R * R)) :=
   match l with [] => None | (m, d) :: r => if Z.eqb m n then Some d else hlook r n end.
 
 (* periodic source at w: harmonic order n = round(w/w0); active iff |w/w0 - n| <= res/w0; then an ideal sinusoidal
-   source with the n-th harmonic's amplitude and phase (the source's own R / G is NOT carried over: the code builds
-   ccp.ac_*_source(id, nodes, w, phi, V) with the default R = 0 / G = 0) *)
+   source with the n-th harmonic's amplitude and phase and the source's own R / G (since fix 735295e; before it the
+   code built ccp.ac_*_source(id, nodes, w, phi, V) with the default R = 0 / G = 0) *)
 Definition wavetypes : list label := map lbl ["const"; "cos"; "sin"; "rect"; "tri"; "saw"]%string.
 Definition harmonic_of c (w wres : R) : res (option (R * (R * R))) :=
   let* w0 := vget c "w" in
@@ -173,14 +173,14 @@ Definition t_periodic_voltage_source c (w wres : R) :=
   let* h := harmonic_of c w wres in
   match h with
   | None => mkbranch c (short_circuit (cid c))
-  | Some (a, cs) => mkbranch c (voltage_source (cid c) (polar a cs) (cre 0))
+  | Some (a, cs) => let* r := vget c "R" in mkbranch c (voltage_source (cid c) (polar a cs) (cre r))
   end.
 Definition t_periodic_current_source c (w wres : R) :=
   let* _ := vget c "w" in let* _ := vget c "I" in let* _ := vget c "phi" in
   let* h := harmonic_of c w wres in
   match h with
   | None => mkbranch c (open_circuit (cid c))
-  | Some (a, cs) => mkbranch c (current_source (cid c) (polar a cs) (cre 0))
+  | Some (a, cs) => let* g := vget c "G" in mkbranch c (current_source (cid c) (polar a cs) (cre g))
   end.
 Definition t_short_circuit c := mkbranch c (short_circuit (cid c)).
 (* elm.load(id, P, V_ref) with I_ref = -1, Q = 0 *)
